@@ -202,6 +202,18 @@ CHECKS = {
         'fetch log are compared with the reference expansion.',
         'Trusted: mc/model/ref_urls.py (urllib.parse.urljoin semantics); virtual fetcher replaces cssutils.util._defaultFetcher as the repository tests do.',
     ),
+    'C15': (
+        'model_checking',
+        'explicit-state breadth-first search over namespace operation histories on a pair of real sheets (history replay, over-fine key), with the effective-mapping reference and selector (URI, name) pairs checked on every transition',
+        'DESIGN.md 3/C15',
+        'BFS from 3 seeds over namespaces[p]=u / del, insert/add/delete of @namespace rules, rule.prefix assignment, selectorText assignment and '
+        'appendSelector over 6 selector forms (p|a, q|a, *|a, |a, a, [p|x]), insertion of detached rules carrying their own namespaces, moving rules between '
+        'two sheets, sheet text replacement; closure under <=2 (quick) / <=3 (thorough) @namespace rules and 1 / 2 style rules. After every transition on both '
+        'sheets: the mapping equals the effective rules computed by the reference (last declaration of a URI and of a prefix wins) and the rule list holds no '
+        'ineffective rule; every URI used by a selector is declared; a rejected operation changes nothing; operations that are no selector edit leave '
+        'every prefixed / explicitly un-namespaced (URI, name) pair alone; the serialisation reparses to the same namespace rules and pairs.',
+        'Trusted: ref_ns in checks/c15.py; None == "" for names parsed without default namespace (pinned by the repository tests).',
+    ),
 }
 
 PENDING = {}
